@@ -26,6 +26,26 @@ From FV Require Import DedupeModel.
 From FV Require Import FsModel AtomicModel.
 Open Scope N_scope.
 
+(* ---------------------------------------------------------------- link resolution as the kernel does it *)
+(* relative-aware link resolution: a target that does not start with "/" is taken from the link's directory
+   (FsModel.follow only handles absolute normalised targets; on those the two agree) *)
+Definition is_abs (p : path) : bool := match p with c :: _ => comp_eqb c root_c | [] => false end.
+Definition link_dest (p t : path) : path := if is_abs t then norm t else norm (parent p ++ t).
+Inductive rrres := RRFile (q : path) (i : N) | RRDir | RRNone.
+Fixpoint rresolve (fuel : nat) (s : fs) (p : path) : rrres :=
+  match names s p with
+  | None => RRNone
+  | Some NDir => RRDir
+  | Some (NFile i) => RRFile p i
+  | Some (NLink t) => match fuel with O => RRNone | S f => rresolve f s (link_dest p t) end
+  end.
+(* the bytes a reader gets at p (open follows links) *)
+Definition rread (s : fs) (p : path) : option (list N) :=
+  match rresolve LINK_FUEL s p with
+  | RRFile _ i => option_map ibytes (inodes s i)
+  | _ => None
+  end.
+
 (* ---------------------------------------------------------------- metadata of a report path *)
 Record aux := mkAux {
   adev : N -> N;                    (* device of an inode *)
@@ -35,15 +55,15 @@ Record aux := mkAux {
 
 (* fs::metadata(p): follows symbolic links; a dangling path gives an error (None) *)
 Definition stat_fs (ax : aux) (s : fs) (p : path) : option meta :=
-  match follow s p with
-  | RFound _ (NFile i) =>
+  match rresolve LINK_FUEL s p with
+  | RRFile _ i =>
       match inodes s i with
       | Some d => Some (mkMeta p (adev ax i) i (N.of_nat (length (ibytes d))) true (Some (imtime d))
-                                 (aatime ax i) (abtime ax i) (actime ax i))
+                               (aatime ax i) (abtime ax i) (actime ax i))
       | None => None
       end
-  | RFound _ _ => Some (mkMeta p 0 0 0 false None None None (0%Z, 0%Z))       (* a directory: not a regular file *)
-  | _ => None
+  | RRDir => Some (mkMeta p 0 0 0 false None None None (0%Z, 0%Z))       (* a directory: not a regular file *)
+  | RRNone => None
   end.
 
 (* ---------------------------------------------------------------- the report and the script *)
@@ -93,25 +113,7 @@ Definition dedupe_run (ax : aux) (e : env) (sl : bool) (op : dop) (c : dcfg) (sm
   (r : report) (s : fs) : script_out :=
   whole_run sl (map (fcmd_of e) (run_cmds ax op c sm s r)) s.
 
-(* ---------------------------------------------------------------- observations *)
-(* relative-aware link resolution: a target that does not start with "/" is taken from the link's directory *)
-Definition is_abs (p : path) : bool := match p with c :: _ => comp_eqb c root_c | [] => false end.
-Definition link_dest (p t : path) : path := if is_abs t then norm t else norm (parent p ++ t).
-Inductive rrres := RRFile (i : N) | RRDir | RRNone.
-Fixpoint rresolve (fuel : nat) (s : fs) (p : path) : rrres :=
-  match names s p with
-  | None => RRNone
-  | Some NDir => RRDir
-  | Some (NFile i) => RRFile i
-  | Some (NLink t) => match fuel with O => RRNone | S f => rresolve f s (link_dest p t) end
-  end.
-(* the bytes a reader gets at p (open follows links) *)
-Definition rread (s : fs) (p : path) : option (list N) :=
-  match rresolve LINK_FUEL s p with
-  | RRFile i => option_map ibytes (inodes s i)
-  | _ => None
-  end.
-
+(* ---------------------------------------------------------------- observations (continued) *)
 (* a content is "stored in a regular file" *)
 Definition stored (s : fs) (b : list N) : Prop :=
   exists p i d, names s p = Some (NFile i) /\ inodes s i = Some d /\ ibytes d = b.
@@ -119,30 +121,140 @@ Definition stored (s : fs) (b : list N) : Prop :=
 (* p names the same inode with the same bytes and mtime (link count and ctime are not modelled) *)
 Definition untouched (s st : fs) (p : path) : Prop := same_file s st p p.
 
-(* ---------------------------------------------------------------- footprints *)
-(* the names a command may write, and the other names whose value it depends on *)
+(* ---------------------------------------------------------------- footprints and local preconditions *)
+(* the names a command writes (operands are normalised paths, see [cmd_ok]) ... *)
 Definition cmd_writes (c : fcmd) : list path :=
   match c with
-  | FRemove a => [norm a]
-  | FSoftLink _ a tmp | FHardLink _ a tmp => [norm a; norm tmp]
-  | FRefLink _ a tmp _ _ _ _ => [norm tmp]
-  | FMove src tgt _ _ => [norm src; norm tgt]
+  | FRemove a => [a]
+  | FSoftLink _ a tmp | FHardLink _ a tmp => [a; tmp]
+  | FRefLink _ _ tmp _ _ _ _ => [tmp]
+  | FMove src tgt _ _ => [src; norm tgt]
   end.
+Definition wrote (c : fcmd) (p : path) : bool := existsb (path_eqb p) (cmd_writes c).
+(* ... and the node it leaves there, computed in the state in which it starts *)
+Definition cmd_post (s : fs) (c : fcmd) (p : path) : option node :=
+  match c with
+  | FRemove _ => None
+  | FSoftLink t a _ => if path_eqb p a then Some (NLink t) else None
+  | FHardLink t a _ => if path_eqb p a then names s t else None
+  | FRefLink _ _ _ _ _ _ _ => None
+  | FMove src tgt _ _ => if path_eqb p (norm tgt) then names s src else None
+  end.
+(* the names a command depends on without writing them *)
 Definition cmd_reads (c : fcmd) : list path :=
   match c with
-  | FRemove _ => []
-  | FSoftLink _ a _ => [parent (norm a)]
-  | FHardLink t a _ | FRefLink t a _ _ _ _ _ => [norm t; parent (norm a)]
-  | FMove _ _ _ _ => []
+  | FHardLink t _ _ | FRefLink t _ _ _ _ _ _ => [t]
+  | _ => []
   end.
+
+(* what a command needs in the state in which it starts (fault-free, no foreign lock on its victim):
+   the victim is a non-directory (a REGULAR file when the lock probe is on: the probe opens the path,
+   following links), the temp sibling is free, the directory exists; a hard link needs its source to
+   exist (any non-directory: a symlink is linked as such, K7); a reflink needs regular files with
+   equal bytes on distinct inodes, and the recorded mtime is the victim's. *)
+Definition victim_ok (sl : bool) (s : fs) (a : path) : Prop :=
+  norm a = a /\ exists n, names s a = Some n /\ n <> NDir /\ (sl = false \/ exists i, n = NFile i /\ locks s i = false).
+Definition tmp_ok (s : fs) (a tmp : path) : Prop :=
+  norm tmp = tmp /\ names s tmp = None /\ parent tmp = parent a /\ is_dir s (parent a) = true.
+Definition cmd_ok (sl : bool) (s : fs) (c : fcmd) : Prop :=
+  match c with
+  | FRemove a => victim_ok sl s a
+  | FSoftLink t a tmp => victim_ok sl s a /\ tmp_ok s a tmp /\ norm t = t /\ t <> a /\ t <> tmp
+  | FHardLink t a tmp => victim_ok sl s a /\ tmp_ok s a tmp /\ norm t = t /\ t <> a /\ t <> tmp /\
+                         exists nt, names s t = Some nt /\ nt <> NDir
+  | FRefLink t a tmp mt _ _ _ =>
+      norm a = a /\ tmp_ok s a tmp /\ norm t = t /\ t <> a /\ t <> tmp /\ wf s /\
+      exists i0 d0 it dt, names s a = Some (NFile i0) /\ inodes s i0 = Some d0 /\ names s t = Some (NFile it) /\
+                          inodes s it = Some dt /\ it <> i0 /\ ibytes dt = ibytes d0 /\ mt = imtime d0 /\
+                          (sl = false \/ locks s i0 = false)
+  | FMove _ _ _ _ => False          (* Move has its own development (EffectsProofs4) *)
+  end.
+
+Definition temps (cs : list fcmd) : list path :=
+  flat_map (fun c => match cmd_tmp c with Some t => [t] | None => [] end) cs.
+Definition retained (cs : list fcmd) : list path :=
+  flat_map (fun c => match cmd_retained c with Some t => [t] | None => [] end) cs.
+
+(* A plan: every command can start in s; the write footprints (victims, temps) are pairwise disjoint;
+   nothing written is the retained file of a link. *)
+Definition plan_ok (sl : bool) (s : fs) (cs : list fcmd) : Prop :=
+  Forall (cmd_ok sl s) cs /\ NoDup (map victim cs ++ temps cs) /\
+  (forall a t, In a (map victim cs ++ temps cs) -> In t (retained cs) -> a <> t).
+
+(* the final names of a plan, written down without reference to any execution order *)
+Definition plan_names (s : fs) (cs : list fcmd) (p : path) : option node :=
+  match find (fun c => wrote c p) cs with
+  | Some c => cmd_post s c p
+  | None => names s p
+  end.
+
+(* observational equality of two final states of runs from s: same names, same inodes among those that
+   existed in s (inodes created during the run are temporary and unreachable), same locks *)
+Definition obs_eq (s st st' : fs) : Prop :=
+  (forall p, names st p = names st' p) /\ (forall i, i < next s -> inodes st i = inodes st' i) /\
+  (forall i, locks st i = locks st' i).
+
+(* ---------------------------------------------------------------- hypotheses about a report *)
+Definition rpaths (r : report) : list path := concat (map gpaths r).
+
+(* C03 /\ C01 for r w.r.t. s: no path is listed twice (in particular the groups are pairwise disjoint), and
+   the members of a group read the same bytes (through symbolic links if -S reported links); report paths are
+   absolute normalised paths of existing directory entries *)
+Definition report_ok (s : fs) (r : report) : Prop :=
+  NoDup (rpaths r) /\
+  (forall p, In p (rpaths r) -> norm p = p /\ is_abs p = true /\ is_dir s (parent p) = true) /\
+  (forall g, In g r -> exists b, forall p, In p (gpaths g) -> rread s p = Some b).
+
+(* the temp names chosen by temp_file(): siblings, fresh, pairwise different (24 random alphanumerics) *)
+Definition tmp_of (e : env) (p : path) : path := temp_of p (sfx e p).
+Definition env_ok (e : env) (s : fs) (r : report) : Prop :=
+  NoDup (map (tmp_of e) (rpaths r)) /\
+  forall p, In p (rpaths r) -> norm (tmp_of e p) = tmp_of e p /\ names s (tmp_of e p) = None /\
+                               parent (tmp_of e p) = parent p /\ ~ In (tmp_of e p) (rpaths r).
+
+(* the lock probe can succeed: locking is off, or every victim is a regular file not locked by another process *)
+Definition victims_lockable (sl : bool) (s : fs) (cs : list cmd) : Prop :=
+  sl = false \/ forall x, In x cs -> exists i, names s (mpath (cmd_victim x)) = Some (NFile i) /\ locks s i = false.
+
+(* reflink commands act on regular files with distinct inodes *)
+Definition reflinks_regular (s : fs) (cs : list cmd) : Prop :=
+  forall t l, In (RefLink t l) cs -> exists i0 it, names s (mpath l) = Some (NFile i0) /\
+                                                 names s (mpath t) = Some (NFile it) /\ it <> i0.
+
+Definition is_move (op : dop) : bool := match op with OpMove _ => true | _ => false end.
+
+(* everything a fault-free run of remove / link / link --soft / dedupe needs *)
+Definition run_ok (ax : aux) (e : env) (sl : bool) (op : dop) (c : dcfg) (sm : path -> path -> bool) (s : fs) (r : report) : Prop :=
+  report_ok s r /\ env_ok e s r /\ wf s /\ is_move op = false /\
+  victims_lockable sl s (run_cmds ax op c sm s r) /\ reflinks_regular s (run_cmds ax op c sm s r).
+
+(* the part of the run decided for one report group: its files as dedupe() sees them, the device classes, and
+   for every class the (kept, dropped) split when partition succeeds *)
+Definition group_files (ax : aux) (s : fs) (g : rgroup) : option (list meta) := opt_seq (map (stat_fs ax s) (gpaths g)).
+Definition group_parts (op : dop) (files : list meta) : list (list meta) :=
+  if cross_device_disallowed op then by_device files else [files].
+
+(* every victim is a regular file (no symbolic link reported by -S is dropped) *)
+Definition victims_regular (s : fs) (cs : list cmd) : Prop :=
+  forall x, In x cs -> exists i d, names s (mpath (cmd_victim x)) = Some (NFile i) /\ inodes s i = Some d.
+
+(* a run of `move`: every source is a regular file of s (a normalised path), no source twice *)
+Definition move_src_ok (s : fs) (c : fcmd) : Prop :=
+  match c with
+  | FMove src _ _ _ => norm src = src /\ exists i d, names s src = Some (NFile i) /\ inodes s i = Some d
+  | _ => False
+  end.
+Definition moves_ok (s : fs) (cs : list fcmd) : Prop := Forall (move_src_ok s) cs /\ NoDup (map victim cs) /\ wf s.
+Definition move_target_of (c : fcmd) : path := match c with FMove _ tgt _ _ => norm tgt | _ => [] end.
 
 (* ---------------------------------------------------------------- known findings as predicates *)
 (* K2: a report member that is kept (no command acts on it) is a symbolic link, and the file it
    resolves to is the victim of a command (possible when link and target count as different
    replicas: --isolate + -S). *)
 Definition K2 (s : fs) (r : report) (cs : list fcmd) : Prop :=
-  exists g p t q n, In g r /\ In p (gpaths g) /\ names s p = Some (NLink t) /\ ~ In p (map victim cs) /\
-                    follow s p = RFound q n /\ In q (map victim cs).
-(* K7: a hard-link command whose source (the first retained path) is a symbolic link *)
+  exists g p t q i, In g r /\ In p (gpaths g) /\ names s p = Some (NLink t) /\ ~ In p (map victim cs) /\
+                    rresolve LINK_FUEL s p = RRFile q i /\ In q (map victim cs).
+(* K7: a link command whose source (the first retained path) is a symbolic link.  For `link` (FHardLink) the
+   victim becomes a second name of the SYMLINK, whose relative target then resolves from the victim's directory. *)
 Definition K7 (s : fs) (cs : list fcmd) : Prop :=
-  exists t a tmp x, In (FHardLink t a tmp) cs /\ names s t = Some (NLink x).
+  exists c t x, In c cs /\ cmd_retained c = Some t /\ names s t = Some (NLink x).
